@@ -996,6 +996,10 @@ def reduced_checks(rot, G, m, res, sig, rep, cover_c, mkey):
         d, _ = cKDTree(vz).query(Pv[inside])
         ang = np.degrees(2 * np.arcsin(np.clip(d / 2, 0, 1)))
         measured[mkey] = max(measured.get(mkey, 0), float(ang.max() / s2_cell(m, res)))
+        # a direction of the sector within one covering radius of the S2 mesh (S2_C[m] x cell, checked for the whole
+        # sphere above) may have its nearest mesh direction OUTSIDE the sector, which the reduced sample does not contain:
+        # next to a sector face the bound is two covering radii (the exact clause above already ties R * z to the mesh)
+        cover_c = max(cover_c, 2 * S2_C[m])
         if ang.max() > cover_c * s2_cell(m, res):
             fail(sig("cover"), f"sector direction {ang.max():.3f} deg (> {cover_c} x the nominal cell {s2_cell(m, res):.2f}) "
                  f"from the nearest R * z", dict(rep, probe=Pv[inside][int(np.argmax(ang))].tolist()))
